@@ -1,6 +1,6 @@
 (* C08 property theorems ONLY. *)
 From Coq Require Import ZArith List Bool Reals Lra.
-From RV Require Import Common.Num Common.RealNum C08.Model C08.Proofs C08.ProofsR.
+From RV Require Import Common.Num Common.RealNum C08.Model C08.Proofs C08.ProofsR C08.ProofsDir.
 Import ListNotations.
 
 (* (1) Structural, for EVERY arithmetic (binary64 included), every integrator, every event sequence:
@@ -68,12 +68,65 @@ Theorem C08_split_same_steps : forall t0 t1 t2 d n1 n2 k,
 Proof. exact split_same_steps. Qed.
 Print Assumptions C08_split_same_steps.
 
+(* (7) EITHER direction of time, ANY sign of the user's dt, ANY integrator whose time update is in the class
+   "t += dt, dt unchanged, dt_last_done := dt or untouched": exact finishing lands exactly on tmax after n+1 steps,
+   n |dt| < |tmax - t0| <= (n+1) |dt|, and dt comes back as the user's |dt| oriented towards tmax *)
+Theorem C08_exact_finish_any_direction : forall stepper, stepper_ok stepper -> forall tmax t0 dt0 n k,
+  dt0 <> 0 -> tmax <> t0 ->
+  INR n * Rabs dt0 < Rabs (tmax - t0) <= (INR n + 1) * Rabs dt0 ->
+  exists dl, integrate RNum (1 / 1000000000000) (1 / 1000000000000 / 10 ^ 188) stepper (fun _ => None)
+               tmax false true true (S (S n)) t0 dt0 k
+             = Some (mkSt tmax (oriented tmax t0 dt0) dl ST_SUCCESS (k + n + 1) (oriented tmax t0 dt0)).
+Proof. exact exact_finish_any. Qed.
+Print Assumptions C08_exact_finish_any_direction.
+
+(* (8) the same without exact finishing: n steps with (n-1)|dt| < |tmax - t0| <= n|dt|, never against the direction *)
+Theorem C08_nonexact_finish_any_direction : forall stepper, stepper_ok stepper -> forall tmax t0 dt0 n k,
+  dt0 <> 0 -> tmax <> t0 ->
+  (INR n - 1) * Rabs dt0 < Rabs (tmax - t0) <= INR n * Rabs dt0 ->
+  exists dl, integrate RNum (1 / 1000000000000) (1 / 1000000000000 / 10 ^ 188) stepper (fun _ => None)
+               tmax false false true n t0 dt0 k
+             = Some (mkSt (t0 + INR n * oriented_n tmax t0 dt0) (oriented_n tmax t0 dt0) dl ST_SUCCESS (k + n)
+                          (oriented_n tmax t0 dt0)).
+Proof. exact nonexact_finish_any. Qed.
+Print Assumptions C08_nonexact_finish_any_direction.
+
+(* (9) state carried across calls: ANY sequence of exact-finish calls on one simulation (targets ahead of, behind
+   or equal to the current time, in any order) ends every call on its target with SUCCESS, takes the implied
+   number of steps, and always leaves |dt| equal to the user's |dt| *)
+Theorem C08_seq_exact_finish : forall stepper, stepper_ok stepper -> forall plan s,
+  dt s <> 0 -> plan_ok (t s) (Rabs (dt s)) plan ->
+  exists r, integrate_seq RNum (1 / 1000000000000) (1 / 1000000000000 / 10 ^ 188) stepper (fun _ => None) true
+                          (plan_fuel plan) (map fst plan) s = Some r /\
+            t r = last (map fst plan) (t s) /\ Rabs (dt r) = Rabs (dt s) /\
+            steps r = (steps s + plan_steps (t s) plan)%nat /\
+            (plan <> [] -> status r = ST_SUCCESS).
+Proof. exact seq_exact_finish. Qed.
+Print Assumptions C08_seq_exact_finish.
+
+(* (10) the three time-update kinds of the library's fixed-step integrators are in the class, and the step count
+   of every plan entry exists: the hypotheses of (7)-(9) restrict nothing *)
+Theorem C08_steppers_in_class :
+  stepper_ok (step_full RNum) /\ stepper_ok (step_half RNum) /\ stepper_ok (step_janus RNum).
+Proof. exact (conj step_full_ok (conj step_half_ok step_janus_ok)). Qed.
+Print Assumptions C08_steppers_in_class.
+Theorem C08_step_count_exists : forall x a, 0 < a -> 0 < x -> exists n, INR n * a < x <= (INR n + 1) * a.
+Proof. exact step_count_exists. Qed.
+Print Assumptions C08_step_count_exists.
+
 (* non-vacuity: concrete numbers meeting the hypotheses of (4) and (5) *)
 Example C08_hypotheses_inhabited :
   (0 < 1/4 /\ 0 + INR 3 * (1/4) < 9/10 <= 0 + (INR 3 + 1) * (1/4)) /\
-  events_positive (fun k => if Nat.eqb k 5 then Some 4%Z else None).
+  events_positive (fun k => if Nat.eqb k 5 then Some 4%Z else None) /\
+  (* a plan for (9): dt = -1/4 (pointing away), targets 9/10 (forward, 3 full steps), 9/10 again (no-op), 0 (backward) *)
+  plan_ok 0 (Rabs (-1/4)) [(9/10, 3%nat); (9/10, 0%nat); (0, 3%nat)].
 Proof.
-  split.
+  split; [|split].
   - cbn [INR]. lra.
   - intros k c. destruct (Nat.eqb k 5); intros H; inversion H. reflexivity.
+  - replace (Rabs (-1/4)) with (1/4) by (rewrite Rabs_left; lra).
+    cbn [plan_ok INR]. repeat split.
+    + right. split; [lra|]. rewrite Rabs_pos_eq; lra.
+    + left. split; reflexivity.
+    + right. split; [lra|]. rewrite Rabs_left; lra.
 Qed.
